@@ -367,6 +367,34 @@ class ModInfo:
                             self.nassign[n.id] = self.nassign.get(n.id, 0) + 1
                     if isinstance(t, ast.Name):
                         self.consts[t.id] = st.value
+        # every name the module body may bind (at any nesting outside functions / classes): a name outside this set, the builtins and the
+        # process globals does not exist - reading it raises NameError
+        self.bound_names = set()
+        self.star_import = False
+        stack = list(mod.tree.body)
+        while stack:
+            st = stack.pop()
+            if isinstance(st, (ast.FunctionDef, ast.AsyncFunctionDef, ast.ClassDef)):
+                self.bound_names.add(st.name)
+                continue
+            if isinstance(st, (ast.Import, ast.ImportFrom)):
+                for a in st.names:
+                    if a.name == "*":
+                        self.star_import = True
+                    self.bound_names.add((a.asname or a.name).split(".")[0])
+                continue
+            for n in ast.walk(st):
+                if isinstance(n, ast.Name) and isinstance(n.ctx, ast.Store):
+                    self.bound_names.add(n.id)
+                elif isinstance(n, (ast.Import, ast.ImportFrom)):
+                    for a in n.names:
+                        if a.name == "*":
+                            self.star_import = True
+                        self.bound_names.add((a.asname or a.name).split(".")[0])
+                elif isinstance(n, (ast.FunctionDef, ast.ClassDef)):
+                    self.bound_names.add(n.name)
+                elif isinstance(n, ast.ExceptHandler) and n.name:
+                    self.bound_names.add(n.name)
         uses_globals_dict = False
         strs = set()
         for f in ast.walk(mod.tree):
@@ -377,6 +405,7 @@ class ModInfo:
             elif isinstance(f, ast.Constant) and isinstance(f.value, str):
                 strs.add(f.value)
         if uses_globals_dict:
+            self.star_import = True      # names may be created through the dict: no name is known to be undefined
             # `globals()[name] = ...` needs no declaration: every module-level name that is spelled as a string somewhere may be rebound
             self.proc_globals.update(n for n in self.consts if n in strs)
 
@@ -451,6 +480,8 @@ class World:
         if len(body_stmts) == 1 and isinstance(body_stmts[0], ast.Return):
             out.add("trivial")
         for n in ast.walk(fn):
+            if isinstance(n, (ast.Yield, ast.YieldFrom)):
+                out.add("iter")
             if isinstance(n, ast.Return) and n.value is not None:
                 v = n.value
                 fx = v.func if isinstance(v, ast.Call) else None
